@@ -281,6 +281,33 @@ def clause5(P, res):
         res.violated(rid, "sent-counter-sites", f"expected >= 4 `sent += valid` sites next to resolve_run, found {m}")
 
 
+def clause6(P, res):
+    rid = "C01-6"
+    res.rule(rid, "reset-on-drain (mpsc bounded): the consumer never moves its cursor past a slot whose state it has not put back to EMPTY — in deq_once / deq_run every "
+                  "advance of the consumer position is dominated by a store of EMPTY to that slot's state (value slots and SKIP tombstones alike). A tombstone left behind is "
+                  "read again after the chunk table wraps: the consumer steps over a ticket a producer has claimed, that send returns Ok and its value is never received")
+    n = 0
+    for b in P.bodies.values():
+        if not re.search(r"^fibre::mpsc::bounded_v3::shared::Shared::<T>::deq_(once|run)$", b.id):
+            continue
+        adv = [e for e in b.events if e.kind == "assign" and e.data["r"]["k"] == "bin" and e.data["r"]["op"].startswith("Add")
+               and re.search(r"\.pos$", b.path_of_operand(e.data["r"]["a"]))]
+        resets = [e for e in b.calls() if e.is_atomic and e.method == "store" and len(e.args) > 1 and b.path_of_operand(e.args[0]).endswith(".state")
+                  and str((b.const_of_operand(e.args[1]) or {}).get("path", "")).endswith("EMPTY")]
+        if not adv:
+            res.unclassified(rid, b.id, "no consumer-position advance found (the cursor field is no longer `.pos`?)", where=f"{b.file}:{b.line}")
+            continue
+        n += 1
+        bad = [a for a in adv if not (resets and b.dominated_by_any(a.pos, {r.pos for r in resets}))]
+        if bad:
+            res.violated(rid, b.id, f"the consumer position advances at {bad[0].loc} on a path that did not store EMPTY to the slot's state: a drained SKIP tombstone (or value "
+                         "slot) keeps its old state and is misread on the next lap", where=bad[0].loc)
+        else:
+            res.holds(rid, b.id, f"{len(adv)} cursor advance(s), each behind a reset of the slot state", where=adv[0].loc)
+    if n < 2:
+        res.violated(rid, "dequeue-bodies", f"expected deq_once and deq_run of the bounded mpsc, found {n}")
+
+
 def run(P, ctx):
     res = Result("C01")
     res.extra["explanation"] = "Handoff-under-lock, timeout-vs-handoff, publication order/strength and value-returned-on-failure shapes of the point-to-point channels."
@@ -289,4 +316,5 @@ def run(P, ctx):
     clause3(P, res)
     clause4(P, res)
     clause5(P, res)
+    clause6(P, res)
     return res
